@@ -117,3 +117,13 @@ def run(cx):
     # A-POLY: tower functions and Jacobian formulas equal their defining formulas as rational functions
     RPL.a_poly(cx, 'A-POLY', 39)
     RPL.a_poly_curve(cx, 'A-POLY', 'gm_sm9', 8)
+
+
+_run_cmp = run
+
+
+def run(cx):
+    from .. import rules_poly as RPL
+    _run_cmp(cx)
+    # I-CMP: the 256-bit comparison, decided over all 81 orderings of corresponding limbs
+    RPL.limb_compare(cx, 'I-CMP', 'gm_sm9::u256::u256_cmp')
